@@ -1048,7 +1048,9 @@ func (env *specEnv) call(x *SCall) SV {
 	return SV{}
 }
 
-// usePure declares a pure spec function (and the ones it depends on) in this query context.
+// usePure declares a pure spec function (and the ones it depends on) in this query context. Non-recursive
+// functions become define-fun (also visible to the quantifier-free counterexample queries); recursive ones are
+// declared and axiomatised with their unfolding triggered on the application.
 func (e *Enc) usePure(pf *PureFunc) {
 	key := "pure:" + pf.Name
 	if _, ok := e.declOf[key]; ok {
@@ -1058,6 +1060,9 @@ func (e *Enc) usePure(pf *PureFunc) {
 	var ps []string
 	var binders []string
 	env := &specEnv{e: e, cur: e.init, old: e.init, vars: map[string]SV{}, ptrVars: map[string]ptrVar{}, noLocals: true}
+	if e.fn.Pkg != nil {
+		env.pkg = e.fn.Pkg.Pkg
+	}
 	for _, p := range pf.Params {
 		srt, gt := ghostSort(e, p.Sort)
 		ps = append(ps, srt)
@@ -1066,27 +1071,66 @@ func (e *Enc) usePure(pf *PureFunc) {
 	}
 	rs, _ := ghostSort(e, pf.Sort)
 	name := smtName("pf$" + pf.Name)
-	idx := len(e.decls)
-	e.decls = append(e.decls, "") // placeholder keeps declaration order: deps declared after are fine for declare-fun
-	if _, dup := e.declOf[name]; dup {
-		e.decls[idx] = ""
+	recursive := pf.Body != nil && specMentionsCall(pf.Body, pf.Name)
+	if pf.Body == nil || recursive {
+		if _, dup := e.declOf[name]; !dup {
+			e.declOf[name] = "fun"
+			e.decls = append(e.decls, fmt.Sprintf("(declare-fun %s (%s) %s)", name, strings.Join(ps, " "), rs))
+		}
+	}
+	if pf.Body == nil {
+		return
+	}
+	body := env.eval(pf.Body)
+	if !recursive {
+		if _, dup := e.declOf[name]; !dup {
+			e.declOf[name] = "fun"
+			e.decls = append(e.decls, fmt.Sprintf("(define-fun %s (%s) %s %s)", name, strings.Join(binders, " "), rs, body.T))
+		}
+		return
+	}
+	var args []string
+	for _, p := range pf.Params {
+		args = append(args, p.Name+"!p")
+	}
+	app := sx(name, args...)
+	if len(binders) == 0 {
+		e.assumeGFront(tEq(app, body.T))
 	} else {
-		e.declOf[name] = "fun"
-		e.decls[idx] = fmt.Sprintf("(declare-fun %s (%s) %s)", name, strings.Join(ps, " "), rs)
+		e.assumeGFront(fmt.Sprintf("(forall (%s) (! (= %s %s) :pattern (%s)))", strings.Join(binders, " "), app, body.T, app))
 	}
-	if pf.Body != nil {
-		body := env.eval(pf.Body)
-		var args []string
-		for _, p := range pf.Params {
-			args = append(args, p.Name+"!p")
+}
+
+func specMentionsCall(x SExpr, name string) bool {
+	switch x := x.(type) {
+	case *SCall:
+		if id, ok := x.Fn.(*SIdent); ok && id.Name == name {
+			return true
 		}
-		app := sx(name, args...)
-		if len(binders) == 0 {
-			e.assumeGFront(tEq(app, body.T))
-		} else {
-			e.assumeGFront(fmt.Sprintf("(forall (%s) (! (= %s %s) :pattern (%s)))", strings.Join(binders, " "), app, body.T, app))
+		for _, a := range x.Args {
+			if specMentionsCall(a, name) {
+				return true
+			}
 		}
+		return specMentionsCall(x.Fn, name)
+	case *SBin:
+		return specMentionsCall(x.L, name) || specMentionsCall(x.R, name)
+	case *SUn:
+		return specMentionsCall(x.X, name)
+	case *SCond:
+		return specMentionsCall(x.C, name) || specMentionsCall(x.A, name) || specMentionsCall(x.B, name)
+	case *SQuant:
+		return specMentionsCall(x.Body, name)
+	case *SLambda:
+		return specMentionsCall(x.Body, name)
+	case *SSel:
+		return specMentionsCall(x.X, name)
+	case *SIndex:
+		return specMentionsCall(x.X, name) || specMentionsCall(x.I, name)
+	case *SSliceE:
+		return specMentionsCall(x.X, name) || (x.Lo != nil && specMentionsCall(x.Lo, name)) || (x.Hi != nil && specMentionsCall(x.Hi, name))
 	}
+	return false
 }
 
 // assumeGFront adds an axiom visible to every obligation of this function (including earlier ones).
